@@ -21,19 +21,19 @@ def prop(pid, **kw):
     PROPS[pid] = kw
 
 prop("C20",
-     rule="unit: random buffers x indices for Position::from_index / Error::syntax / Parser::error clamp; API: generated documents (depth<=3, multi-line variants) mutated once (truncate/substitute/insert/delete/bad UTF-8/bad escape/duplicate structural/trailing/swap) x 24 error-returning entry points + get/get_many with a generated path + stream/iterator polled 4 times past the end; non-trivial = distinct (op,args) with offset>0",
+     rule="unit: random buffers x indices for Position::from_index / Error::syntax / Parser::error clamp; API: generated documents (depth<=3, multi-line variants) mutated once (truncate/substitute/insert/delete/bad UTF-8/bad escape/duplicate structural/trailing/swap) x 24 error-returning entry points + get/get_many with a generated path + stream/iterator polled 4 times past the end (Value, u8, Vec<String>, IgnoredAny, LazyValue, OwnedLazyValue, serde_json::Value and a record that skips members, over slice / Bytes / str input; the failing document also in the middle of a stream with well-formed documents behind it); non-trivial = distinct (op,args) with offset>0",
      unit_ops={"synlr", "perridx", "t2"}, funcs=True,
      assumptions=["String::from_utf8_lossy / format! used by Error::syntax do not panic (std)", "the serde visitor error path reaches Parser::fix_position (checked by the API-level cases only)"])
 
 prop("C02",
-     rule="structured documents (1/3 valid, 2/3 mutated once or twice) + nesting depth around both limits + exhaustive token sequences over 16 tokens (length<=3 quick, <=5 thorough) x {LazyValue, OwnedLazyValue, IgnoredAny, Value, serde_json::Value, Vec<Value>, HashMap<String,Value>} x {from_slice, from_str, from_reader, Deserializer::from_json over Bytes/FastStr}; non-trivial = distinct input longer than 2 bytes",
+     rule="structured documents (1/3 valid, 2/3 mutated once or twice) + every byte value as a stray byte at every token boundary of four templates, the end of the text included + nesting depth around both limits + exhaustive token sequences over 16 tokens (length<=3 quick, <=5 thorough) x {LazyValue, OwnedLazyValue, IgnoredAny, Value, serde_json::Value, Vec<Value>, HashMap<String,Value>} x {from_slice, from_str, from_reader, Deserializer::from_json over Bytes/FastStr}; non-trivial = distinct input longer than 2 bytes",
      assumptions=["simdutf8 decides UTF-8 validity (modelled by Spec.Ref.utf8_valid; compared on every case)", "completeness of the container skipper is validated, not yet proved (skip_value_sound is proved)"])
 
 prop("C10", funcs=True,
      rule="well-formed duplicate-free generated documents (depth<=4, strings with escapes/multibyte/structural bytes, leading pad 0..69 to move the 64-byte blocks) x up to 6 valid paths + perturbed paths x 15 lookup variants (checked/unchecked x 5 carriers, LazyValue/OwnedLazyValue/Value pointer, Value::get chain); plus block-edge documents with quotes/backslashes/brackets inside strings; non-trivial = non-empty path",
      assumptions=["the 64-byte bitmap bookkeeping of skip_container_loop is tied to the scalar counting model by the correspondence (unit hooks + unchecked API), not by proof"])
 prop("C11",
-     rule="generated documents x 1..6 paths (shared prefixes, repeats, perturbed) filtered for shape consistency x {get_many, get_many_unchecked}; the implementation's slot vector is judged by the extracted reference lookup (verdict op); (schema, document) pairs against the reference merge",
+     rule="generated documents x 1..6 paths (shared prefixes, repeats, perturbed) filtered for shape consistency x {get_many, get_many_unchecked}; the implementation's slot vector is judged by the extracted reference lookup (verdict op); the same over documents that repeat member names (first occurrence wins, as in get; F37); (schema, document) pairs against the reference merge",
      assumptions=["hash-map iteration order of owned objects is irrelevant (results compared after sorting keys)"])
 prop("C12",
      rule="generated documents (arrays/objects of width 0..6, nested, escaped keys, whitespace), 1/5 with trailing bytes, 1/3 mutated x {to_array_iter, to_object_iter} x {&[u8], &FastStr, &Bytes} + unchecked iterators and LazyValue::into_*_iter on the well-formed ones; each iterator polled 3 times past its end; transcript (spans, decoded keys) compared with the reference iterator",
@@ -97,8 +97,8 @@ prop("C18",
      assumptions=["sequential consistency: the Acquire/Release/AcqRel annotations are not checked against the C++11 memory model", "clone/drop steps are not in the model (they are covered by the ledger on the real code)"])
 
 prop("C01", guards=True, funcs=True,
-     rule="generated documents: valid / mutated once / mutated twice / truncated (2000 quick, 20000 thorough) plus boundary-size inputs (0..4097 bytes of one byte value) through every safe entry point: 20 parse targets x carriers, get / get_many / get_by_schema with a generated path, lazy and owned-lazy accessors, views, iterators, stream, serialization and Display/Debug of whatever was produced and of every error; verdict per input: no panic, and the tracked allocations of the call return to the baseline; nesting of 200000 levels in a child process must be an error, not a stack overflow",
-     assumptions=["PARTIAL: memory errors that do not crash are not observable by this check (no sanitizer in the quick tier)"])
+     rule="generated documents: valid / mutated once / mutated twice / truncated (2000 quick, 20000 thorough) plus boundary-size inputs (0..4097 bytes of one byte value) through every safe entry point: 20 parse targets x carriers, get / get_many / get_by_schema with a generated path, lazy and owned-lazy accessors, views, iterators, stream, serialization and Display/Debug of whatever was produced and of every error; verdict per input: no panic, the tracked allocations of the call return to the baseline, and the 64-byte guard zone the harness allocator keeps behind every heap block is intact when the block is freed or resized; escapes of every width (1-4 bytes of UTF-8, pairs) behind 0..40 / 56..66 / 120..136 / 248..262 plain bytes (0..600 thorough) as value, member name and stream element, so that every fill level of the decoding buffers is met; nesting of 200000 levels in a child process must be an error, not a stack overflow",
+     assumptions=["PARTIAL: of the memory errors that do not crash, writes past the end of a heap block (up to 64 bytes) are observed through guard zones; stray reads, writes in front of a block or into the stack are not (no sanitizer)"])
 
 def classify_known(pid, case, known):
     """return the id of the recorded known finding this mismatch belongs to, or None"""
